@@ -51,11 +51,11 @@ theorem tryToReorder_unchanged {α : Type} (ext : Nat → Nat) (f : M α)
 
 /-- `find_or_add` with the request, any integer level, under the documented guard -/
 theorem findOrAdd_kept (m : Mgr) (hI : Inv m) (hoff : m.lastLen = none) (i : Int) (v w : Int)
-    (hg : FoaGuard m i.toNat v w) : Kept m (findOrAdd i v w m).2 := by
+    (hg : 0 ≤ i → FoaGuard m i.toNat v w) : Kept m (findOrAdd i v w m).2 := by
   rw [findOrAdd_off_eq m hoff]
   split
   · exact Kept.refl hI
-  · exact findOrAddCore_total m hI _ v w hg
+  · exact findOrAddCore_total m hI _ v w (hg (by omega))
 
 /-- the guard is automatic for the node of a variable -/
 theorem foaGuard_var (m : Mgr) (j : Nat) : FoaGuard m j (-1) 1 := by
@@ -65,7 +65,7 @@ theorem foaGuard_var (m : Mgr) (j : Nat) : FoaGuard m j (-1) 1 := by
 
 theorem varNode_kept (m : Mgr) (hI : Inv m) (hoff : m.lastLen = none) (j : Nat) :
     Kept m (findOrAdd (j : Int) (-1) 1 m).2 :=
-  findOrAdd_kept m hI hoff j (-1) 1 (by rw [Int.toNat_natCast]; exact foaGuard_var m j)
+  findOrAdd_kept m hI hoff j (-1) 1 (fun _ => by rw [Int.toNat_natCast]; exact foaGuard_var m j)
 
 theorem varBody_kept (m : Mgr) (hI : Inv m) (hoff : m.lastLen = none) (name : String) :
     Kept m (varBody name m).2 := by
@@ -338,6 +338,18 @@ theorem rename_total (m : Mgr) (ext : Nat → Nat) (hI : Inv m) (hr : RefExact m
     split
     · next heq => exact kept_of_eq k heq
     · next heq => exact kept_of_eq k heq
+
+/-- `BDD.let(definitions, u)` for ANY node and ANY (homogeneous) dictionary -/
+theorem letOp_total (m : Mgr) (ext : Nat → Nat) (hI : Inv m) (hr : RefExact m ext)
+    (hoff : m.lastLen = none) (d : LetArg) (u : Int) : Kept m (letOp d u m).2 := by
+  unfold letOp
+  split
+  · exact Kept.refl hI
+  · exact Kept.refl hI
+  · exact Kept.refl hI
+  · exact cofactor_total m ext hI hr hoff _ _
+  · exact compose_total m ext hI hr hoff _ _
+  · exact rename_total m ext hI hr hoff _ _
 
 /-! ### `apply` -/
 
